@@ -2,7 +2,7 @@
    of every 3.x magic, and xdis's own unmarshaller, know the type codes xdis.marsh.dumps emits; for 3.0-3.10 magics their
    code-object layout tests are those dump_code3 writes for. *)
 From Xdis Require Import Base.Prelude Base.Result Base.LE Model.Unmarshal Model.UnmarshalObs Model.Marsh Gen.Magics Gen.Dispatch
-  Proofs.C10Tables Proofs.MarshRoundTrip.
+  Proofs.C10Tables Proofs.MarshRoundTrip Proofs.Marsh2RoundTrip.
 Import ListNotations.
 
 Definition py3_magic (m : Z) : bool := tuple_geb (magic_version m) [3; 0].
@@ -53,4 +53,27 @@ Lemma some_py3_magic : existsb (fun m => py3_magic m && (m =? 3531)) all_magics 
 Proof. vm_compute. reflexivity. Qed.
 Lemma some_code_magics : existsb (fun m => py3_pre311_magic m && (m =? 3413) && posonly_read (cpy_cfg m)) all_magics = true
   /\ existsb (fun m => py3_pre311_magic m && (m =? 3394) && negb (posonly_read (cpy_cfg m))) all_magics = true.
+Proof. split; vm_compute; reflexivity. Qed.
+
+(* ---- Python 2.0-2.7 magics: the version tests of the code-object layout dump_code2 writes for ---- *)
+Definition py2_magic (m : Z) : bool := tuple_geb (magic_version m) [2; 0] && negb (tuple_geb (magic_version m) [3; 0]).
+Definition cfg2_ok_b (c : cfg) : bool :=
+  negb (vge c [3; 0]) && negb (vge c [3; 11]) && negb (vge c [3; 8]) && vge c [1; 3] && vge c [2; 0] && vge c [1; 5].
+Lemma cpy2_all : forallb (fun m => negb (py2_magic m) || cfg2_ok_b (cpy_cfg m)) all_magics = true.
+Proof. vm_compute. reflexivity. Qed.
+Lemma xdis2_all : forallb (fun m => negb (py2_magic m) || cfg2_ok_b (xdis_cfg m)) all_magics = true.
+Proof. vm_compute. reflexivity. Qed.
+(* xdis's reader knows every type code the Python 2 writer can emit, whatever the magic *)
+Lemma xdis2_codes : forallb (fun m => forallb (code_ok (xdis_cfg m)) used_codes2) all_magics = true.
+Proof. vm_compute. reflexivity. Qed.
+
+Lemma cfg2_facts c : cfg2_ok_b c = true ->
+  vge c [3; 0] = false /\ vge c [3; 11] = false /\ vge c [3; 8] = false /\ vge c [1; 3] = true /\ vge c [2; 0] = true /\ vge c [1; 5] = true.
+Proof.
+  unfold cfg2_ok_b. intros H. repeat (apply andb_true_iff in H; destruct H as [H ?]).
+  repeat match goal with Hn : negb _ = true |- _ => apply negb_true_iff in Hn end. repeat split; assumption.
+Qed.
+
+Lemma some_py2_magics : existsb (fun m => py2_magic m && (m =? 62211) && vge (cpy_cfg m) [2; 3]) all_magics = true
+  /\ existsb (fun m => py2_magic m && (m =? 60717) && negb (vge (cpy_cfg m) [2; 3])) all_magics = true.
 Proof. split; vm_compute; reflexivity. Qed.
